@@ -142,6 +142,9 @@ def judge(case, wd, sh, how=None):
     else:
         run = pipeline.run_inprocess(case, wd, serial=True, stdout_output=stdout_out)
     viol = []
+    if run.error and run.error['type'] in ('HarnessTimeout', 'HarnessChildDied'):
+        sh.inconclusive.append('%s run hit the harness watchdog (%s) - not a verdict' % (how, run.error['msg']))
+        return
     if run.error:
         key = 'abort:%s@%s' % (run.error['type'], run.error['frame'])
         viol.append((key, '%s run aborted: %s: %s (innermost repository frame %s line %s)' % (
